@@ -83,6 +83,15 @@ theorem C12_shrink (s : Store) (v : String) (b1 b2 : Bytes) (_hlen : b2.length <
   (C12_register_last [.write v b1, .write v b2] s v (.write v b2)
     (by simp [lastWrite, Op.target]) h2).2.2.2
 
+/-- F23 repair: a signed update stores the bytes behind the descriptor as they are — whatever
+    they are (a database with list types the decoder does not handle, or no database at all).
+    No decodability hypothesis: the store no longer decodes and re-encodes the payload. -/
+theorem C12_signed_keeps_payload (s : Store) (v : String) (desc payload : Bytes) (d : AuthDesc)
+    (hv : isSecureBootVar v = true) (ha : readAuth (desc ++ payload) = .ok (d, payload)) :
+    (s.writeSigned v desc payload).get v = some payload := by
+  unfold Store.writeSigned
+  rw [Store.get_put_same, storedValue_signed hv ha]
+
 /-! ### non-vacuity: concrete values (`Ex.bytes`: the 144-byte two-list database of C08) -/
 
 /-- a decodable database, and a descriptor in front of it that parses leaving exactly it -/
@@ -128,3 +137,4 @@ end GoUefi.C12
 #print axioms GoUefi.C12.C12_lastValue_spec
 #print axioms GoUefi.C12.C12_independent
 #print axioms GoUefi.C12.C12_shrink
+#print axioms GoUefi.C12.C12_signed_keeps_payload
